@@ -1,0 +1,46 @@
+// Verification hooks (compiled only with `--cfg slotted_egraphs_verif` or under Kani).
+// They expose crate-private structures to the native replay harness of /verif; nothing in the crate uses them.
+use crate::*;
+
+/// The crate-private permutation group, instantiated with plain [SlotMap] permutations.
+pub struct VerifGroup(Group<SlotMap>);
+
+impl VerifGroup {
+    pub fn new(identity: &SlotMap, generators: Vec<SlotMap>) -> Self {
+        VerifGroup(Group::new(identity, generators.into_iter().collect()))
+    }
+    pub fn count(&self) -> usize {
+        self.0.count()
+    }
+    pub fn contains(&self, p: &SlotMap) -> bool {
+        self.0.contains(p)
+    }
+    pub fn all_perms(&self) -> Vec<SlotMap> {
+        self.0.all_perms()
+    }
+    pub fn orbit(&self, s: Slot) -> Vec<Slot> {
+        self.0.orbit(s).into_iter().collect()
+    }
+    pub fn generators(&self) -> Vec<SlotMap> {
+        self.0.generators().into_iter().collect()
+    }
+    pub fn add_set(&mut self, perms: Vec<SlotMap>) -> bool {
+        self.0.add_set(perms.into_iter().collect())
+    }
+    pub fn is_trivial(&self) -> bool {
+        self.0.is_trivial()
+    }
+}
+
+impl<L: Language, N: Analysis<L>> EGraph<L, N> {
+    /// Overwrites (or appends) the raw union-find entry of `i`.
+    #[cfg(not(feature = "explanations"))]
+    pub fn verif_unionfind_set(&self, i: Id, a: AppliedId) {
+        self.unionfind_set(i, ProvenAppliedId { elem: a });
+    }
+
+    /// The canonical (path-compressed) union-find entry of `i`.
+    pub fn verif_unionfind_get(&self, i: Id) -> AppliedId {
+        self.unionfind_get(i)
+    }
+}
